@@ -1073,11 +1073,9 @@ func (e *executor) executeGroupBy(ctx context.Context, index string, c *pql.Call
 	if len(c.Children) == 0 {
 		return nil, errors.New("need at least one child call")
 	}
-	limit := int(^uint(0) >> 1)
-	if lim, hasLimit, err := c.UintArg("limit"); err != nil {
+	limit, err := groupByKeepN(c)
+	if err != nil {
 		return nil, err
-	} else if hasLimit {
-		limit = int(lim)
 	}
 	filter, _, err := c.CallArg("filter")
 	if err != nil {
@@ -1134,12 +1132,20 @@ func (e *executor) executeGroupBy(ctx context.Context, index string, c *pql.Call
 	}
 	results, _ := other.([]GroupCount)
 
+	// The offset and limit apply to the merged result: a remote node returns
+	// its leading limit+offset groups and the coordinator pages them.
+	if opt.Remote {
+		return results, nil
+	}
+
 	// Apply offset.
 	if offset, hasOffset, err := c.UintArg("offset"); err != nil {
 		return nil, err
 	} else if hasOffset {
 		if int(offset) < len(results) {
 			results = results[offset:]
+		} else {
+			results = results[:0]
 		}
 	}
 	// Apply limit.
@@ -1151,6 +1157,28 @@ func (e *executor) executeGroupBy(ctx context.Context, index string, c *pql.Call
 		}
 	}
 	return results, nil
+}
+
+// groupByKeepN returns how many leading groups every shard and the reducer
+// must keep for a GroupBy call: the page limit plus the offset that is skipped
+// after merging (the offset applies to the merged result, not to each shard).
+func groupByKeepN(c *pql.Call) (int, error) {
+	keep := int(^uint(0) >> 1)
+	lim, hasLimit, err := c.UintArg("limit")
+	if err != nil {
+		return 0, err
+	}
+	if !hasLimit {
+		return keep, nil
+	}
+	offset, _, err := c.UintArg("offset")
+	if err != nil {
+		return 0, err
+	}
+	if lim < uint64(keep) && offset < uint64(keep)-lim {
+		keep = int(lim + offset)
+	}
+	return keep, nil
 }
 
 // FieldRow is used to distinguish rows in a group by result.
@@ -1254,11 +1282,9 @@ func (e *executor) executeGroupByShard(ctx context.Context, index string, c *pql
 		return []GroupCount{}, nil
 	}
 
-	limit := int(^uint(0) >> 1)
-	if lim, hasLimit, err := c.UintArg("limit"); err != nil {
+	limit, err := groupByKeepN(c)
+	if err != nil {
 		return nil, err
-	} else if hasLimit {
-		limit = int(lim)
 	}
 
 	results := make([]GroupCount, 0)
